@@ -328,7 +328,7 @@ def rule_R3c(text, deltas):
             t = T(j)
             if t == 'xeh_xstr' and j + 2 < len(toks) and T(j + 1) == '!' and T(j + 2) == '(':
                 hit = (toks[j][1], toks[match_close(text, toks, j + 2)][2]); break
-            if toks[j][0] == 'ident' and re.match(r'^[A-Z][A-Z_]*_TYPE_NAME$', t):
+            if toks[j][0] == 'ident' and re.match(r'^[A-Z][A-Z_]*_(TYPE_NAME|ERRMSG)$', t):
                 hit = (toks[j][1], toks[j][2]); break
         if not hit:
             break
@@ -508,52 +508,154 @@ def rule_Rcomb(text, method, kind, n, deltas, where):
 
 
 def rule_R10(text, deltas, where):
-    """R10: the function's tail expression is a `loop { .. }`: every `break EXPR` of that loop -> `return EXPR`
-    (Verus has no valued `break`; a valued break of the tail loop IS the function's return)."""
+    """R10: a `loop { .. }` in TAIL POSITION of the function (the body's tail expression, or the tail of a match arm /
+    if-else branch / block that is itself in tail position): every valued `break EXPR` of that loop -> `return EXPR`
+    (Verus has no valued `break`; the value of a tail-position loop IS the function's return value)."""
     toks = code_tokens(text)
     T = lambda j: text[toks[j][1]:toks[j][2]]
-    # the last top-level item of the body must be `loop { .. }`
     if T(0) != '{':
         raise AssembleError('%s: R10: body does not start with `{`' % where)
-    end = match_close(text, toks, 0)
-    j = 1
-    last_loop = None
-    while j < end:
-        if T(j) == 'loop' and T(j + 1) == '{':
-            c = match_close(text, toks, j + 1)
-            if c + 1 == end:
-                last_loop = (j, c)
-            j = c + 1
-            continue
-        if T(j) in '([{':
-            j = match_close(text, toks, j) + 1
-            continue
-        j += 1
-    if last_loop is None:
-        raise AssembleError('%s: R10 does not apply (the tail expression is not a `loop`)' % where)
-    lo, hi = last_loop
+    loops = []
+
+    def tail_of_block(o):
+        """o = index of `{`: find the tail expression's first token index range inside the block"""
+        c = match_close(text, toks, o)
+        # split top-level statements by `;` (brackets skipped); the tail is what follows the last top-level `;`
+        j = o + 1
+        last = o + 1
+        while j < c:
+            t = T(j)
+            if t in '([{':
+                cj = match_close(text, toks, j)
+                # a block statement (`if .. {}` / `match .. {}` / `loop {}` / `while`/`for`) not followed by `;` may end a statement
+                j = cj + 1
+                continue
+            if t == ';':
+                last = j + 1
+            j += 1
+        return last, c
+
+    def visit_tail(lo, hi):
+        """tokens [lo, hi) form an expression in tail position"""
+        if lo >= hi:
+            return
+        # skip over leading statements that are block-like without `;` : take the LAST block-like item
+        j = lo
+        items = []
+        while j < hi:
+            start = j
+            t = T(j)
+            if t == 'loop' and T(j + 1) == '{':
+                c = match_close(text, toks, j + 1)
+                items.append(('loop', start, c)); j = c + 1; continue
+            if t == 'match':
+                k = j + 1
+                while k < hi and T(k) != '{':
+                    if T(k) in '([':
+                        k = match_close(text, toks, k)
+                    k += 1
+                c = match_close(text, toks, k)
+                items.append(('match', k, c)); j = c + 1; continue
+            if t == 'if':
+                # if COND { } [else if COND { }]* [else { }]
+                branches = []
+                k = j
+                while True:
+                    k += 1
+                    while k < hi and T(k) != '{':
+                        if T(k) in '([':
+                            k = match_close(text, toks, k)
+                        k += 1
+                    c = match_close(text, toks, k)
+                    branches.append((k, c))
+                    if c + 1 < hi and T(c + 1) == 'else':
+                        if T(c + 2) == 'if':
+                            k = c + 2
+                            continue
+                        c2 = match_close(text, toks, c + 2)
+                        branches.append((c + 2, c2))
+                        c = c2
+                    break
+                items.append(('if', branches, c)); j = c + 1; continue
+            if t == '{':
+                c = match_close(text, toks, j)
+                items.append(('block', j, c)); j = c + 1; continue
+            if t in ('while', 'for'):
+                k = j + 1
+                while k < hi and T(k) != '{':
+                    if T(k) in '([':
+                        k = match_close(text, toks, k)
+                    k += 1
+                c = match_close(text, toks, k)
+                items.append(('other', start, c)); j = c + 1; continue
+            # an ordinary expression up to hi
+            items.append(('expr', start, hi - 1)); j = hi
+        if not items:
+            return
+        it = items[-1]
+        if it[0] == 'loop':
+            loops.append((it[1], it[2]))
+        elif it[0] == 'block':
+            a, b = tail_of_block(it[1]); visit_tail(a, b)
+        elif it[0] == 'if':
+            for (o, c) in it[1]:
+                a, b = tail_of_block(o); visit_tail(a, b)
+        elif it[0] == 'match':
+            o, c = it[1], it[2]
+            # arms: PAT => EXPR ,   (EXPR either a block or up to the next top-level `,`)
+            j = o + 1
+            while j < c:
+                # find `=>` at depth 0
+                k = j
+                while k < c and not (T(k) == '=' and T(k + 1) == '>' and toks[k][2] == toks[k + 1][1]):
+                    if T(k) in '([{':
+                        k = match_close(text, toks, k)
+                    k += 1
+                if k >= c:
+                    break
+                e0 = k + 2
+                if T(e0) == '{':
+                    ec = match_close(text, toks, e0)
+                    a, b = tail_of_block(e0); visit_tail(a, b)
+                    j = ec + 1
+                    if j < c and T(j) == ',':
+                        j += 1
+                else:
+                    k2 = e0
+                    while k2 < c and T(k2) != ',':
+                        if T(k2) in '([{':
+                            k2 = match_close(text, toks, k2)
+                        k2 += 1
+                    visit_tail(e0, k2)
+                    j = k2 + 1
+
+    a, b = tail_of_block(0)
+    visit_tail(a, b)
+    if not loops:
+        raise AssembleError('%s: R10 does not apply (no `loop` in tail position)' % where)
     edits = []
-    j = lo + 2
-    depth_loops = []
-    while j < hi:
-        t = T(j)
-        if t in ('loop', 'while', 'for'):
-            # skip nested loops entirely: their breaks are their own
-            k = j + 1
-            while k < hi and T(k) != '{':
-                if T(k) in '([':
-                    k = match_close(text, toks, k)
-                k += 1
-            j = match_close(text, toks, k) + 1
-            continue
-        if t == 'break' and T(j + 1) not in (';', '}', ','):
-            edits.append((toks[j][1], toks[j][2]))
-        j += 1
+    for (lo, hi) in loops:
+        j = lo + 2
+        while j < hi:
+            t = T(j)
+            if t in ('loop', 'while', 'for'):
+                k = j + 1
+                while k < hi and T(k) != '{':
+                    if T(k) in '([':
+                        k = match_close(text, toks, k)
+                    k += 1
+                j = match_close(text, toks, k) + 1
+                continue
+            if t == '|' :
+                pass
+            if t == 'break' and T(j + 1) not in (';', '}', ','):
+                edits.append((toks[j][1], toks[j][2]))
+            j += 1
     if not edits:
         raise AssembleError('%s: R10 does not apply (no valued `break`)' % where)
-    for (a, b) in reversed(edits):
+    for (a, b) in sorted(edits, reverse=True):
         text = text[:a] + 'return' + text[b:]
-    deltas.append(dict(rule='R10', original='break EXPR (x%d, tail loop)' % len(edits), rewritten='return EXPR'))
+    deltas.append(dict(rule='R10', original='break EXPR (x%d, tail-position loops)' % len(edits), rewritten='return EXPR'))
     return text
 
 
